@@ -60,6 +60,12 @@ the same operations in the same order with the C++ integer semantics made explic
   class): the def translates `wrap % group` (`wrap` defaults to "{ return %s; }") — one expression or statement group of a
   function that is otherwise not a pure integer function; the free variables of the fragment are the def's parameters.
 
+  (area OpenBytes)
+  0x…ull / …ul literals      -> `unsigned long long` operands (u64): arithmetic with them is the 64-bit one (Seg.mul64 / sub64 …)
+  spec key `elemcalls` {f: (array, index def, [argument types], [extra arguments])}: a member function `T& f(args)` whose body is
+                                 `return array[e];` and whose index expression `e` is itself translated as `index def`: `f(a)` reads
+                                 `(array (index def extra a))`, `f(a) = v;` / `++f()` write that element (the index is evaluated once
+                                 per use; the accepted index functions are pure)
 Anything outside the subset makes the translation of that function fail; the failure is reported as
 `missing` (the obligation cannot be re-checked), exactly like a constant whose pattern is gone.
 Lean side: lean/Momo/Proof/TranslatedEq.lean proves each generated def equal to the hand-written model
@@ -70,7 +76,7 @@ import re, os, sys
 # ---------------------------------------------------------------- C++ subset: tokenizer
 
 TOK = re.compile(r"""
-    (?P<num>0[xX][0-9a-fA-F]+|\d+)(?:ull|ULL|ul|UL|u|U)?
+    (?P<num>0[xX][0-9a-fA-F]+|\d+)(?P<suf>ull|ULL|ul|UL|u|U)?
   | (?P<id>[A-Za-z_][A-Za-z_0-9]*(?:<>|<[A-Za-z_][A-Za-z_0-9]*>(?=::))?(?:::[A-Za-z_][A-Za-z_0-9]*(?:<>|<[A-Za-z_][A-Za-z_0-9]*>(?=::))?)*)
   | (?P<op><<=|>>=|\+\+|--|<<|>>|<=|>=|==|!=|&&|\|\||\+=|-=|\*=|/=|%=|&=|\|=|\^=|[-+*/%&|^~!<>=?:;,(){}\[\].])
   | (?P<ws>\s+)
@@ -86,8 +92,9 @@ def tokenize(src):
         i = m.end()
         if m.lastgroup == "ws":
             continue
-        if m.lastgroup == "num":
-            out.append(("num", int(m.group("num"), 0)))
+        if m.lastgroup in ("num", "suf"):
+            # a literal with the suffix ull / ul is an `unsigned long long` (u64) operand (area OpenBytes); others stay `int`
+            out.append(("num64" if (m.group("suf") or "").lower() in ("ull", "ul") else "num", int(m.group("num"), 0)))
         elif m.lastgroup == "id":
             out.append(("id", m.group("id")))
         else:
@@ -181,6 +188,9 @@ class P:
         if k == "num":
             self.next()
             return ("num", v, "int")
+        if k == "num64":                                         # 0x…ull: unsigned 64-bit literal (area OpenBytes)
+            self.next()
+            return ("num", v, "u64")
         if k == "id":
             self.next()
             if v == "true" or v == "false":
@@ -382,6 +392,15 @@ class Tr:
         """(array name, index AST | name of the bound index, element type) if `lv` is an element of an array-typed name, else None"""
         if lv[0] == "var" and lv[1] in self.refs:
             return self.refs[lv[1]]
+        if lv[0] == "call" and lv[1] in self.spec.get("elemcalls", {}):   # accessor returning a reference to an array element (area OpenBytes)
+            arr, idxfn, argtys, extra = self.spec["elemcalls"][lv[1]]
+            if len(argtys) != len(lv[2]):
+                raise Unsupported("arity of %s" % lv[1])
+            args = []
+            for a, want in zip(lv[2], argtys):
+                t, ty = self.ex(a)
+                args.append(self.conv(t, ty, want))
+            return arr, "(%s %s)" % (idxfn, " ".join(extra + args)), self.types[arr][:-2]
         if lv[0] == "index" and lv[1][0] == "var":
             n = self.rename(lv[1][1])
             if self.types.get(n, "").endswith("[]"):
@@ -398,10 +417,10 @@ class Tr:
     def ex(self, e):
         k = e[0]
         if k == "num":
-            return str(e[1]), "int"
+            return str(e[1]), e[2]
         if k == "boollit":
             return ("true" if e[1] else "false"), "bool"
-        if k in ("var", "index") and self.arr_lv(e) is not None:  # element of a byte array
+        if (k in ("var", "index") or (k == "call" and e[1] in self.spec.get("elemcalls", {}))) and self.arr_lv(e) is not None:  # element of a byte array
             arr, idx, elty = self.arr_lv(e)
             return "(%s %s)" % (arr, self.arr_index(idx)), elty
         if k == "var" or k == "index" or (k == "call" and e[1] in self.spec.get("accessors", {}) and not e[2]):
